@@ -19,6 +19,9 @@ type diffInput struct {
 
 // diffRun executes src on both sides and asserts equal observable traces.
 func diffRun(label, src string, inputs []diffInput, opt Options) {
+	if len(label) > 150 {
+		label = label[:60] + " ... " + label[len(label)-85:]
+	}
 	// implementation
 	L := newL(opt, BaseLibName)
 	var trace []interface{}
@@ -222,6 +225,19 @@ var c01Templates = []diffTmpl{
 	{"emit(x < y)", "any2"},
 }
 
+// c02ManyConsts returns statements that put n distinct string constants into the chunk's pool
+func c02ManyConsts(n int) string {
+	var sb strings.Builder
+	sb.WriteString("local pool = {")
+	for i := 0; i < n; i++ {
+		sb.WriteString("'c")
+		sb.WriteString(itoa(i))
+		sb.WriteString("', ")
+	}
+	sb.WriteString("}; ")
+	return sb.String()
+}
+
 func c01Items(n int) string {
 	var sb strings.Builder
 	for i := 1; i <= n; i++ {
@@ -290,6 +306,13 @@ var c02Templates = []diffTmpl{
 	{"local c = 0; local function f() c = c + 1; return {x, y} end; local n = 0; for k in next, f() do n = n + 1 end; emit(n, c)", "num"},
 	{"local function it(s, c) if c < 2 then return c + 1, s end end; for a, b in it, x, 0 do emit(a, b) end; for a in it, y, 0 do emit(a) end; for a, b, c in it, z, 1 do emit(a, b, c) end", "num"},
 	{"local function gen() return function(s, c) if c < s then return c + 1 end end, 2, 0 end; for i in gen() do emit(i + x) end; for i, j in (gen()) do emit('never') end", "int"},
+	// Lua callees entered from host functions (pcall, sort comparator, gsub callback ...)
+	{"local function f(a, b, ...) emit(a, b, select('#', ...), ...) end; pcall(f); pcall(f, x); pcall(f, x, y); pcall(f, x, y, z); pcall(f, x, y, z, 1)", "num"},
+	{"local function f(a, b, c) emit(a, b, c) end; pcall(f, x); pcall(f, x, y, z, 1); local function v(...) emit(select('#', ...), ...) end; pcall(v); pcall(v, nil, x)", "num"},
+	{"local ok, a, b, c = pcall(function(p, q, ...) return p, q, ... end, x); emit(ok, a, b, c); emit(pcall(function(p, q, ...) return ..., q, p end, x, y, z))", "num"},
+	// method names beyond the RK constant range
+	{c02ManyConsts(260) + "local o = {k = x}; function o:get(d) return self.k + d end; local function mk() return o end; emit(mk():get(y), o:get(z), mk().get(mk(), 1))", "num"},
+	{c02ManyConsts(255) + "local o = {k = x}; function o:get(d) return self.k + d end; local function mk() return o end; emit(mk():get(y), o:get(z))", "num"},
 	// the compatibility arg table
 	{"local function f(a, b, ...) return arg end; local r = f(x, y, z, 1); emit(type(r), r.n, r[1], r[2]); local function g() return f(x, y, z) end; local q = g(); emit(type(q), q.n, q[1])", "num"},
 	{"local function f(...) return arg.n, arg[1], arg[3] end; emit(f()); emit(f(x)); emit(f(x, nil, z))", "num"},
@@ -300,7 +323,7 @@ var c02Templates = []diffTmpl{
 
 // C02.tmpl — call and return adjustment, whole pipeline against R-lua.
 //
-//verif:harness prop=C02 tier=quick bounds="28 call templates: 0..3 fixed parameters x vararg x 0..4 arguments x result contexts (statement, parenthesised, middle, last in argument list / return / constructor / assignment), Lua and Go callees, method sugar, __call, tail calls incl. depth 60 > CallStackSize 32; inputs 3 symbolic float64 (or 32-bit ints)"
+//verif:harness prop=C02 tier=quick bounds="33 call templates: 0..3 fixed parameters x vararg x 0..4 arguments x result contexts (statement, parenthesised, middle, last in argument list / return / constructor / assignment), Lua and Go callees, method sugar, __call, tail calls incl. depth 60 > CallStackSize 32; inputs 3 symbolic float64 (or 32-bit ints)"
 func H_C02_tmpl() {
 	t := c02Templates[VChoice(len(c02Templates))]
 	diffRun(t.src, t.src, c01Inputs(t.kind), Options{CallStackSize: 32})
